@@ -7,7 +7,7 @@
 EXTENDS Gen_C02, LoaderImpl
 
 U0 == case.u
-Pos == case.pos
+Pos == IF case.pos = "op2" THEN "op" ELSE case.pos
 
 SiteKeys ==
    {<<"use">>}
